@@ -29,7 +29,7 @@ Definition owns (f : frame) : list nat :=
                   | F6 _ _ | FR _ _ | F9 | F11 => n :: opt_list par
                   | F7 c _ | F8 c _ _ => n :: c :: opt_list par
                   end
-  | ANew _ _ s => match s with W3 _ p | W4 _ p => [p] | _ => [] end
+  | ANew _ _ s => match s with W3 _ p _ | W4 _ p => [p] | _ => [] end
   | AWait n _ s => match s with E2 | E3 | E4 | E5 | Q2 | Q3 | Q4 _ => [n] | _ => [] end
   | _ => []
   end.
@@ -205,3 +205,160 @@ Lemma InvAH_run sched : forall w, InvAH w -> InvAH (run w sched).
 Proof. induction sched as [|a r IH]; intros w I; cbn; auto. apply IH, InvAH_exec, I. Qed.
 Theorem InvAH_reachable w : reachable w -> InvAH w.
 Proof. intros (c0 & progs & sched & H0 & ->). apply InvAH_run. split; [apply InvA_init, H0|apply InvH_init]. Qed.
+
+(* ------------------------------------------------------------------------------------------------ *)
+(* Guard: the lock-protected fields of a note change only under its lock (or in nsync_note_new's link step, for the note
+   under construction, or for a fresh note) *)
+Definition prot_same (x y : note) : Prop :=
+  parent x = parent y /\ children x = children y /\ disc x = disc y /\ waiters x = waiters y /\ adoptions x = adoptions y.
+Lemma step1_guard w t c x :
+  shape (stk w t) ->
+  prot_same (nt (fst (step1 w t c)) x) (nt w x) \/ In x (owned w t) \/
+  lock (nt w x) = None /\ lock (nt (fst (step1 w t c)) x) = Some t
+  \/ (exists par dl p e, top w t = Some (ANew par dl (W3 x p e))) \/ x = nnext w.
+Proof.
+  intros Sh. unfold top, owned, prot_same. unfold stk in *.
+  remember (fst (step1 w t c)) as w' eqn:Hw'. revert Hw'.
+  leaves.
+  all: intros ->; cbn [fst] in *.
+  all: try solve [left; repeat split; reflexivity].
+  all: bottom_nil Sh.
+  all: rets Sh.
+  all: repeat match goal with H : Some _ = Some _ |- _ => injection H as H; try subst end.
+  all: repeat match goal with H : _ && _ = true |- _ => apply andb_prop in H; destruct H end.
+  all: repeat match goal with H : lock_free ?w ?n = true |- _ => apply lock_free_none in H end.
+  all: unfold nt in *.
+  all: nsimpl.
+  all: try solve [left; repeat split; reflexivity].
+  all: try solve [right; left; cbn [flat_map owns opt_list app In]; auto 8].
+  all: try solve [right; right; left; split; [assumption | reflexivity]].
+  all: try solve [do 3 right; left; cbn [hd_error]; eauto].
+  all: do 4 right; reflexivity.
+Qed.
+
+(* who can change a parent pointer that is set *)
+Lemma step1_unlink w t c n p :
+  parent (nt w n) = Some p -> parent (nt (fst (step1 w t c)) n) <> Some p ->
+  (exists par s, top w t = Some (FC n par s)) \/ (exists s par, top w t = Some (FF n s par)) \/
+  (exists m nx par, top w t = Some (FF m (F6 n nx) par) /\ disc (nt w n) = 0%nat) \/
+  (exists m nx par, top w t = Some (FF m (F7 n nx) par)) \/ n = nnext w \/
+  (exists par dl p' e, top w t = Some (ANew par dl (W3 n p' e))).
+Proof.
+  unfold top, stk.
+  leaves.
+  all: nsimpl.
+  all: try solve [intros H1 H2; exfalso; apply H2; exact H1].
+  all: intros _ _; cbn [hd_error].
+  all: try solve [left; eauto].
+  all: try solve [right; left; eauto].
+  all: try solve [do 3 right; left; eauto].
+  all: try solve [do 4 right; left; reflexivity].
+  all: try solve [do 5 right; eauto].
+  all: try solve [do 2 right; left; do 3 eexists; split; [reflexivity|];
+                  match goal with H : (disc _ =? 0)%nat = true |- _ => apply Nat.eqb_eq in H; revert H; nsimpl; auto end].
+Qed.
+
+Lemma remove_nat_other n m l : n <> m -> In n l -> In n (remove_nat m l).
+Proof.
+  intros Hne. induction l as [|a r IH]; cbn; [tauto|].
+  destruct (Nat.eqb_spec a m); intros [H|H]; subst; cbn; auto; try congruence.
+Qed.
+(* who can remove a child from a children list *)
+Lemma step1_child_removed w t c n p :
+  In n (children (nt w p)) -> ~ In n (children (nt (fst (step1 w t c)) p)) ->
+  (exists par s, top w t = Some (FC n par s)) \/ (exists s par, top w t = Some (FF n s par)) \/
+  (exists nx par, top w t = Some (FF p (F6 n nx) par) /\ disc (nt w n) = 0%nat) \/
+  (exists nx par, top w t = Some (FF p (F7 n nx) par)) \/ p = nnext w.
+Proof.
+  unfold top, stk.
+  leaves.
+  all: nsimpl.
+  all: try solve [intros H1 H2; exfalso; apply H2; exact H1].
+  all: try solve [intros H1 H2; exfalso; apply H2; apply in_or_app; left; exact H1].
+  all: try solve [intros H1 H2; exfalso; exact H1].
+  all: try solve [intros H1 H2; exfalso; apply H2; apply in_or_app;
+                  match goal with |- In ?a (remove_nat ?b _) \/ _ => destruct (Nat.eq_dec a b); [right; subst; left; reflexivity | left; apply remove_nat_other; auto] end].
+  all: try (intros H1 H2;
+            match type of H2 with ~ In ?a (remove_nat ?b _) =>
+              assert (a = b) by (destruct (Nat.eq_dec a b); auto; exfalso; apply H2; apply remove_nat_other; auto); subst end;
+            cbn [hd_error]).
+  all: try solve [left; eauto].
+  all: try solve [right; left; eauto].
+  all: try solve [do 3 right; left; eauto].
+  all: try solve [do 4 right; reflexivity].
+  all: try solve [do 2 right; left; do 2 eexists; split; [reflexivity|];
+                  match goal with H : (disc _ =? 0)%nat = true |- _ => apply Nat.eqb_eq in H; revert H; nsimpl; auto end].
+Qed.
+
+(* ------------------------------------------------------------------------------------------------ *)
+(* The disconnecting counts: which frames have incremented note x's count and not yet decremented it *)
+Definition in_disc (s : fstg) : bool := match s with F1 | Fw1 | Fw2 | F13 => false | _ => true end.
+Definition b2n (b : bool) : nat := if b then 1%nat else 0%nat.
+Definition ncontrib (f : frame) (x : nat) : nat :=
+  match f with
+  | FN n _ _ inc => b2n (inc && Nat.eqb n x)
+  | FC _ _ s => match s with CR c _ | C6 c _ true => b2n (Nat.eqb c x) | _ => 0%nat end
+  | FF n s _ => (b2n (in_disc s && Nat.eqb n x) + match s with FR c _ | F8 c _ true => b2n (Nat.eqb c x) | _ => 0%nat end)%nat
+  | _ => 0%nat
+  end.
+Definition scount (st : list frame) (x : nat) : nat := list_sum (map (fun f => ncontrib f x) st).
+Definition tcount (w : world) (t x : nat) : nat := scount (stk w t) x.
+
+Definition dfact (w : world) (f : frame) : Prop :=
+  match f with
+  | FN n s _ inc => (inc = true -> s <> N1 /\ s <> N2 /\ s <> N3 /\ s <> N4) /\ (s = N4 -> disc (nt w n) = 0%nat)
+  | FF _ (F7 c _) _ => disc (nt w c) = 0%nat
+  | _ => True
+  end.
+Lemma step1_disc w t c x :
+  shape (stk w t) -> (tcount w t x <= disc (nt w x))%nat -> (x < nnext w)%nat ->
+  (forall f, In f (stk w t) -> dfact w f) ->
+  (disc (nt (fst (step1 w t c)) x) + tcount w t x = disc (nt w x) + tcount (fst (step1 w t c)) t x)%nat /\
+  ((tcount w t x < tcount (fst (step1 w t c)) t x)%nat -> disc (nt w x) = 0%nat).
+Proof.
+  intros Sh. unfold tcount, scount. unfold stk in Sh.
+  remember (fst (step1 w t c)) as w' eqn:Hw'. revert Hw'.
+  leaves.
+  all: intros ->; cbn [fst] in *.
+  all: change (stk w t) with (stack (thr w t)); rewrite Hst.
+  all: try (intros; split; [reflexivity | lia]).
+  all: bottom_nil Sh.
+  all: rets Sh.
+  all: repeat match goal with H : Some _ = Some _ |- _ => injection H as H; try subst end.
+  all: rewrite ?stk_setst, ?stk_finish.
+  all: cbn [map list_sum fold_right ncontrib in_disc b2n andb].
+  all: intros Hle Hx Hinc.
+  all: try (specialize (Hinc _ (or_introl eq_refl)); cbn [dfact] in Hinc).
+  all: try match goal with inc : bool |- _ => destruct inc; [exfalso; destruct Hinc as [Hi ?]; destruct (Hi eq_refl) as (? & ? & ? & ?); congruence|] end.
+  all: try match goal with H : _ /\ (N4 = N4 -> _) |- _ => destruct H as [_ H]; specialize (H eq_refl) end.
+  all: repeat match goal with H : _ && _ = true |- _ => apply andb_prop in H; destruct H end.
+  all: repeat match goal with H : (disc _ =? 0)%nat = true |- _ => apply Nat.eqb_eq in H end.
+  all: repeat match goal with H : not_disconnecting _ _ = true |- _ => unfold not_disconnecting in H; apply Nat.eqb_eq in H end.
+  all: unfold nt in *.
+  all: repeat match goal with H : disc _ = 0%nat |- _ => revert H end.
+  all: nsimpl; intros.
+  all: repeat match goal with H : context [Nat.eqb ?a ?b] |- _ => destruct (Nat.eqb_spec a b); subst; try congruence end.
+  all: cbn [list_sum fold_right b2n andb] in *.
+  all: try solve [split; [lia | intros; lia]].
+Qed.
+
+(* Guard, refined: whose fields change *)
+Lemma step1_guard2 w t c x :
+  prot_same (nt (fst (step1 w t c)) x) (nt w x) \/
+  (exists f, top w t = Some f /\ (In x (owns f) \/ exists n s, f = FC n (Some x) s)) \/
+  lock (nt w x) = None /\ lock (nt (fst (step1 w t c)) x) = Some t
+  \/ (exists par dl p e, top w t = Some (ANew par dl (W3 x p e))) \/ x = nnext w.
+Proof.
+  unfold top, prot_same. unfold stk.
+  leaves.
+  all: repeat match goal with H : _ && _ = true |- _ => apply andb_prop in H; destruct H end.
+  all: repeat match goal with H : lock_free ?w ?n = true |- _ => apply lock_free_none in H end.
+  all: unfold nt in *.
+  all: nsimpl.
+  all: try solve [left; repeat split; reflexivity].
+  all: try solve [right; left; eexists; split; [reflexivity|]; left; cbn [owns opt_list In]; auto 8].
+  all: try solve [right; left; eexists; split; [reflexivity|]; right; eauto].
+  all: try solve [right; right; left; split; [assumption | reflexivity]].
+  all: try solve [do 3 right; left; cbn [hd_error]; eauto].
+  all: try solve [do 4 right; reflexivity].
+Qed.
